@@ -335,7 +335,10 @@ impl fmt::Display for FunctionDefinition {
         if self.has_keyword {
             f.write_str("function ")?;
         }
-        write!(f, "{}() {}", self.name, self.body)
+        let name = self.name.to_string();
+        // A trailing `$` followed by `()` would be lexed as a command substitution.
+        let separator = if name.ends_with('$') { " " } else { "" };
+        write!(f, "{name}{separator}() {}", self.body)
     }
 }
 
